@@ -708,10 +708,28 @@ func runC13Listener(c *core.Ctx, e *ev, br *bsRoles, serverClosed *ssa.Global) {
 		c.Check(good, "R4", "listener/close-records-and-closes", p.Pos(cl.Pos()), "Close sets the closed flag and reads the acceptor under the mutex, then closes it", why)
 	}
 	// Accept only after a successful publication
-	var accepts []ssa.Instruction
+	var accepts []ssa.Instruction   // Accept invokes (in Sync or in a helper holding the accept loop)
+	var acceptAt []ssa.Instruction  // the instruction of Sync that stands for each (the invoke itself or the helper call)
+	loopFn := sync
 	core.AllInstrs(sync, func(x ssa.Instruction) {
-		if cc := core.CallCommon(x); cc != nil && cc.IsInvoke() && cc.Method.Name() == "Accept" {
+		cc := core.CallCommon(x)
+		if cc == nil {
+			return
+		}
+		if cc.IsInvoke() && cc.Method.Name() == "Accept" {
 			accepts = append(accepts, x)
+			acceptAt = append(acceptAt, x)
+			return
+		}
+		if cal := cc.StaticCallee(); cal != nil && p.InRepo(cal) && !cc.IsInvoke() {
+			core.AllInstrs(cal, func(y ssa.Instruction) {
+				if yc := core.CallCommon(y); yc != nil && yc.IsInvoke() && yc.Method.Name() == "Accept" {
+					accepts = append(accepts, y)
+					acceptAt = append(acceptAt, x)
+					loopFn = cal
+					c.FuncsSeen[p.QName(cal)] = true
+				}
+			})
 		}
 	})
 	c.Instance("R4")
@@ -724,7 +742,7 @@ func runC13Listener(c *core.Ctx, e *ev, br *bsRoles, serverClosed *ssa.Global) {
 		return false
 	}}
 	okAcc := len(accepts) > 0
-	for _, a := range accepts {
+	for _, a := range acceptAt {
 		t, _ := core.Search(nil, sync.Blocks[0], func(x ssa.Instruction) core.Action {
 			if pubQ.InstrMay(x, nil) {
 				// must be followed by an error test whose ok side leads on
@@ -777,7 +795,7 @@ func runC13Listener(c *core.Ctx, e *ev, br *bsRoles, serverClosed *ssa.Global) {
 		c.Check(t == nil && errv != nil, "R5", "accept-loop/error-exits", p.InstrPos(a), "an Accept error ends the loop", "the accept loop continues after an Accept error (spins on a closed acceptor / never reports server-closed)", p.PathString(path, t)...)
 		// error side with context done returns the sentinel
 		retSentinel := false
-		core.AllInstrs(sync, func(x ssa.Instruction) {
+		core.AllInstrs(loopFn, func(x ssa.Instruction) {
 			if ret, ok := x.(*ssa.Return); ok && len(ret.Results) == 1 {
 				if ld, ok := core.Unwrap(ret.Results[0]).(*ssa.UnOp); ok && serverClosed != nil && ld.X == ssa.Value(serverClosed) {
 					retSentinel = true
